@@ -25,69 +25,99 @@ def rule_helpers(rep: Report, repo: Repo):
     loc = lambda n: repo.loc(MOD, n)
 
     # -- _normalize_subspace_eigenvectors: pairs are (right, left); a single basis is both ------------
+    from .paths import eval_bool
+    from .resolve import env_at, resolved
+    from .sem import Scope, canon, outcomes
     f = repo.find(f"{MOD}::_normalize_subspace_eigenvectors", R)
-    loops = [n for n in own_nodes(f) if isinstance(n, ast.For)]
-    if len(loops) != 1:
+    loops = [n for n in f.body if isinstance(n, ast.For)]
+    if len(loops) != 1 or not isinstance(loops[0].target, ast.Name):
         raise AnalysisError(R, "_normalize_subspace_eigenvectors: loop not found")
-    var = norm(loops[0].target)
-    seen = {"pair": None, "single": None}
-    for p in enum_paths(loops[0].body, lambda n: (None)):
-        stmts = [e for e in p.events if isinstance(e, ast.stmt)]
-        if p.end == "raise":
-            continue
-        env = run_block(stmts)
-        is_pair = any(norm(t) == f"isinstance({var}, tuple)" and v for t, v, _ in p.choices)
-        apps = {}
-        for st in stmts:
-            if isinstance(st, ast.Expr) and isinstance(st.value, ast.Call) and isinstance(st.value.func, ast.Attribute) \
-                    and st.value.func.attr == "append":
-                apps[norm(st.value.func.value)] = rtext(st.value.args[0], {k: v for k, v in env.items()})
-        seen["pair" if is_pair else "single"] = apps
-    # tuple unpacking `right, left = subspace` is resolved by position (subspace[0], subspace[1])
-    ok = seen["pair"] == {"right_subspaces": f"{var}[0]", "left_subspaces": f"{var}[1]"}
+    var = loops[0].target.id
+    rets = _returns(f)
+    if len(rets) != 1 or not (isinstance(rets[0].value, ast.Tuple) and len(rets[0].value.elts) == 2):
+        raise AnalysisError(R, "_normalize_subspace_eigenvectors: does not return one pair")
+    lists = []
+    for e in rets[0].value.elts:
+        while isinstance(e, ast.Call) and call_name(e) in ("tuple", "list") and len(e.args) == 1:
+            e = e.args[0]
+        if not isinstance(e, ast.Name):
+            raise AnalysisError(R, f"_normalize_subspace_eigenvectors: returned component `{norm(e)[:40]}` is not a local list")
+        lists.append(e.id)
+    RL, LL = lists
+    seen = {}
+    for is_pair in (True, False):
+        def atom(n, is_pair=is_pair):
+            t = norm(canon(n))
+            if t == f"isinstance({var}, tuple)":
+                return is_pair
+            return None
+        apps_all = []
+        for o in outcomes(loops[0].body, None, env={}, atom=atom):
+            if o.kind == "raise":
+                continue
+            apps = {}
+            for kind, st, rv in o.seq:
+                if kind == "stmt" and isinstance(rv, ast.Call) and isinstance(rv.func, ast.Attribute) and rv.func.attr == "append" \
+                        and len(rv.args) == 1:
+                    apps.setdefault(norm(rv.func.value), []).append(norm(rv.args[0]))
+            apps_all.append(apps)
+        if not apps_all:
+            raise AnalysisError(R, "_normalize_subspace_eigenvectors: no non-raising path through the loop body")
+        seen[is_pair] = apps_all
+    ok = all(a_ == {RL: [f"{var}[0]"], LL: [f"{var}[1]"]} for a_ in seen[True])
     rep.check(ok, R, f"{MOD}::_normalize_subspace_eigenvectors a pair is (right, left) and goes to (right_subspaces, left_subspaces)",
-              f"appended {seen['pair']}", loc(f))
-    ok = seen["single"] == {"right_subspaces": var, "left_subspaces": var}
-    rep.check(ok, R, f"{MOD}::_normalize_subspace_eigenvectors a single basis V is used as (V, V)", str(seen["single"]), loc(f))
-    rets = [norm(r.value) for r in _returns(f)]
-    rep.check(rets == ["(tuple(right_subspaces), tuple(left_subspaces))"], R,
-              f"{MOD}::_normalize_subspace_eigenvectors returns (right bases, left bases)", str(rets), loc(f))
+              f"appended {seen[True]}; returned (right, left) = ({RL}, {LL})", loc(f))
+    ok = all(a_ == {RL: [var], LL: [var]} for a_ in seen[False])
+    rep.check(ok, R, f"{MOD}::_normalize_subspace_eigenvectors a single basis V is used as (V, V)", str(seen[False]), loc(f))
+    rep.ok(R, f"{MOD}::_normalize_subspace_eigenvectors returns (right bases, left bases)", norm(rets[0].value), loc(f))
 
     # -- _convert_if_zero: only a value that IS zero becomes the sentinel; everything else is returned unchanged --
     f = repo.find(f"{MOD}::_convert_if_zero", R)
-    tests = {}
-    for p in enum_paths(f.body, lambda n: None):
-        if p.end != "return":
-            raise AnalysisError(R, "_convert_if_zero: path without return")
-        ret = norm(p.end_node.value)
-        taken = [(norm(t), v) for t, v, _ in p.choices]
-        if ret == "zero":
-            kind = [t for t, v in taken if v and (t.startswith("isinstance") or t.startswith("sparse.issparse"))]
-            cond = [t for t, v in taken if v and not (t.startswith("isinstance") or t.startswith("sparse.issparse"))]
-            tests[kind[0] if kind else "else"] = cond
-        elif ret != "value":
-            rep.fail(R, f"{MOD}::_convert_if_zero returns `{ret}` on some path", "a non-zero value must be returned unchanged", loc(f))
-    want = {
-        "isinstance(value, np.ndarray)": [["np.allclose(value, 0, atol=atol)"]],
-        "sparse.issparse(value)": [["value.count_nonzero() == 0"], ["value.nnz == 0"]],
-        "isinstance(value, sympy.MatrixBase)": [["value.is_zero_matrix"]],
-        "else": [["value == 0"]],
+    KINDS = {
+        "ndarray": ("isinstance(value, np.ndarray)", ["np.allclose(value, 0, atol=atol)"]),
+        "sparse": ("sparse.issparse(value)", ["value.count_nonzero() == 0", "value.nnz == 0"]),
+        "sympy": ("isinstance(value, sympy.MatrixBase)", ["value.is_zero_matrix"]),
+        "else": (None, ["value == 0"]),
     }
-    for k, alts in want.items():
-        rep.check(tests.get(k) in alts, R, f"{MOD}::_convert_if_zero [{k}] turns exactly a zero value into the `zero` sentinel",
-                  f"condition {tests.get(k)}", loc(f))
+    for kind, (ktest, allowed) in KINDS.items():
+        def atom(n, kind=kind):
+            t = norm(canon(n))
+            for k2, (kt, _a) in KINDS.items():
+                if kt is not None and t == kt:
+                    return k2 == kind
+            return None
+        table = {}
+        for o in outcomes(f.body, None, env={}, atom=atom):
+            if o.kind != "return":
+                raise AnalysisError(R, "_convert_if_zero: path without return")
+            free = [(norm(canon(t)), pol) for t, pol in o.conds if eval_bool(t, atom) is None]
+            if len(free) != 1:
+                raise AnalysisError(R, f"_convert_if_zero [{kind}]: path decided by {len(free)} value tests")
+            table.setdefault(free[0][0], {})[free[0][1]] = norm(o.value)
+        ok = len(table) == 1 and next(iter(table)) in allowed and next(iter(table.values())) == {True: "zero", False: "value"}
+        label = ktest or "else"
+        rep.check(ok, R, f"{MOD}::_convert_if_zero [{label}] turns exactly a zero value into the `zero` sentinel",
+                  f"{table}; accepted zero tests {allowed}", loc(f))
 
     # -- _unpack_blocks.op_eval: block (i, j) of a nested list is h[i][j] -------------------------------------
     f = repo.find(f"{MOD}::_unpack_blocks", R)
     ev = [d for d in nested_defs(f) if d.name == "op_eval"]
     if len(ev) != 1:
         raise AnalysisError(R, "_unpack_blocks.op_eval not found")
-    env = run_block([s for s in ev[0].body if isinstance(s, ast.Assign)])
-    rr = [n for n in ast.walk(ev[0]) if isinstance(n, ast.Return) and "h[" in norm(n.value)]
-    ok = len(rr) == 1 and norm(rr[0].value) == "_convert_if_zero(h[index[0]][index[1]], atol=atol)"
-    rep.check(ok, R, f"{MOD}::_unpack_blocks block (i, j) of a nested-list term is term[i][j]", norm(rr[0].value) if rr else "", loc(ev[0]))
+    rr = [n for n in ast.walk(ev[0]) if isinstance(n, ast.Return) and n.value is not None and norm(n.value) != "zero"]
+    texts = [rtext(n.value, env_at(n, ev[0])) for n in rr]
+    ok = texts == ["_convert_if_zero(_convert_if_zero(operator[index[2:]], atol=atol)[index[0]][index[1]], atol=atol)"]
+    rep.check(ok, R, f"{MOD}::_unpack_blocks block (i, j) of a nested-list term is term[i][j]", str(texts), loc(ev[0]))
     shp = [n for n in ast.walk(f) if isinstance(n, ast.Call) and call_name(n) == "BlockSeries"]
-    ok = len(shp) == 1 and {k.arg: norm(k.value) for k in shp[0].keywords}.get("shape") == "2 * (len(zeroth_order),)"
+    ok = False
+    if len(shp) == 1:
+        sh = {k.arg: k.value for k in shp[0].keywords}.get("shape")
+        if sh is not None:
+            t = rtext(sh, env_at(shp[0], f))
+            zo = [n for n in ast.walk(f) if isinstance(n, ast.NamedExpr) and norm(n.value) == "operator[(0,) * operator.n_infinite]"]
+            Z = [zo[0].target.id] if zo else []
+            Z.append("operator[(0,) * operator.n_infinite]")
+            ok = any(t in (f"2 * (len({z}),)", f"(len({z}),) * 2", f"(len({z}), len({z}))") for z in Z)
     rep.check(ok, R, f"{MOD}::_unpack_blocks the block grid is N x N with N = number of block rows of H_0", "", loc(f))
 
     # -- _extract_diagonal ---------------------------------------------------------------------------------------
